@@ -268,3 +268,28 @@ Proof.
   - rewrite app_length in *. simpl. lia.
   - lia.
 Qed.
+
+(* ---- the specification's punctuator list is the punctuator section of tokstr[] *)
+Definition is_punct_kind (k : kind) : bool :=
+  (kind_num first_punctuator <=? kind_num k) && (kind_num k <=? kind_num last_punctuator).
+
+Fixpoint rows_eqb (a : list (list N * kind)) (b : list (kind * list N)) : bool :=
+  match a, b with
+  | [], [] => true
+  | (s, k) :: a', (k', s') :: b' => list_eqb s s' && (kind_num k =? kind_num k') && rows_eqb a' b'
+  | _, _ => false
+  end.
+
+Definition puncts_agree_b : bool :=
+  rows_eqb puncts (filter (fun row => is_punct_kind (fst row)) tokstr).
+
+Theorem puncts_agree : puncts_agree_b = true.
+Proof. vm_compute. reflexivity. Qed.
+
+(* ---- non-vacuity *)
+Example nonvacuous_munch :
+  let text := (* a+++b<<=c->d...e..f x##y *) [97; 43; 43; 43; 98; 60; 60; 61; 99; 45; 62; 100; 46; 46; 46; 101; 46; 46; 102; 32; 120; 35; 35; 121] in
+  map (fun t => kind_num (tkind t)) (fst (run_scan [] text)) =
+  map kind_num [TIDENT; TINC; TADD; TIDENT; TSHLASSIGN; TIDENT; TARROW; TIDENT; TELLIPSIS; TIDENT; TPERIOD; TPERIOD;
+                TIDENT; TIDENT; THASHHASH; TIDENT].
+Proof. vm_compute. reflexivity. Qed.
